@@ -92,11 +92,18 @@ func (wheel *Wheel) fetchWheelData(interval time.Duration) *wheelData {
 		index--
 	}
 
-	var position = int(atomic.LoadInt64(&wheel.position))
-	index = (position + index) % wheel.bucketsSize
-	// 由于缺少lock控制，这里有可能取到已经被关闭的chan，但这没有关系，已经关闭的说明时刻已经过去了，立即返回就好
-	var data = (*wheelData)(atomic.LoadPointer(&wheel.channels[index]))
-	return data
+	for {
+		var position = int(atomic.LoadInt64(&wheel.position))
+		var slot = (position + index) % wheel.bucketsSize
+		// 由于缺少lock控制，这里有可能取到已经被关闭的chan，但这没有关系，已经关闭的说明时刻已经过去了，立即返回就好
+		var data = (*wheelData)(atomic.LoadPointer(&wheel.channels[slot]))
+
+		// a tick may have advanced position between the two loads, in which case the slot just read may
+		// already hold the channel of the next revolution: only trust the slot if position did not move
+		if position == int(atomic.LoadInt64(&wheel.position)) {
+			return data
+		}
+	}
 }
 
 func (wheel *Wheel) goLoop(later Later) {
@@ -117,12 +124,11 @@ func (wheel *Wheel) onTicker() {
 	var position = int(atomic.LoadInt64(&wheel.position))
 	var lastItem = (*wheelData)(atomic.LoadPointer(&wheel.channels[position]))
 
+	// 修改position: 必须先于修改chan, 否则在两步之间到达的请求会取到下一圈的chan, 迟到整整一圈
+	atomic.StoreInt64(&wheel.position, int64((position+1)%wheel.bucketsSize))
+
 	// 修改chan
 	atomic.StorePointer(&wheel.channels[position], unsafe.Pointer(&wheelData{c: make(chan struct{})}))
-
-	// 修改position
-	position = (position + 1) % wheel.bucketsSize
-	atomic.StoreInt64(&wheel.position, int64(position))
 
 	// 关闭chan
 	close(lastItem.c)
